@@ -83,7 +83,13 @@ static void dispatch(const std::vector<Arg> &args, size_t i, F &&f, Ts... acc) {
 		else if(a.t == "ullong") dispatch(args, i + 1, f, acc..., (unsigned long long)a.u);
 		else if(a.t == "str") dispatch(args, i + 1, f, acc..., (const char *)a.s.c_str());
 		else if(a.t == "ptr") dispatch(args, i + 1, f, acc..., (void *)(uintptr_t)a.u);
-		else if(a.t == "wstr") dispatch(args, i + 1, f, acc..., (const wchar_t *)L"wide");
+		else if(a.t == "wstr") {
+			// the case's own text as a wide string (kept alive for the duration of the call)
+			static std::vector<std::wstring> keep; if(keep.size() > 64) keep.clear();
+			keep.emplace_back(a.s.begin(), a.s.end());
+			if(a.s.empty() && a.v == -1) dispatch(args, i + 1, f, acc..., (const wchar_t *)L"wide");
+			else dispatch(args, i + 1, f, acc..., (const wchar_t *)keep.back().c_str());
+		}
 	}
 }
 
